@@ -1,6 +1,6 @@
 (* C09 -- A silent peer is probed, then disconnected; a live peer never is. *)
 From Coq Require Import ZArith List.
-From SF Require Import Bytes Values Wire Parse Timer Timer_proofs Timer_loop Session Session_proofs Session_c09.
+From SF Require Import Bytes Values Wire Parse Timer Timer_proofs Timer_loop Session Session_proofs Session_c07 Session_c09.
 Open Scope Z_scope.
 
 (* the inbound timer's timeout is N + max(1, N/20) seconds *)
@@ -148,3 +148,12 @@ Theorem C09_sign_of_life_nonvacuous :
   /\ s_cnt_in (fst (serve ex9_cfg ex9_state ex9_gapfill)) = 3%Z.
 Proof. exact probing_example. Qed.
 Print Assumptions C09_sign_of_life_nonvacuous.
+
+(* the first premise is what well-formed pools give (each session handler under its own key, kept by
+   every operation: Session_c07) as long as the application's all-types handlers accept *)
+Theorem C09_sign_of_life_premise :
+  forall s, pools_ok s ->
+    Forall (fun h => match h with HApp _ acc => acc = true | _ => True end) (pool_get (s_in s) ALL) ->
+    Forall passes (pool_get (s_in s) ALL).
+Proof. exact pools_ok_passes. Qed.
+Print Assumptions C09_sign_of_life_premise.
